@@ -47,7 +47,7 @@ CHECKS = {
 
  "C09": dict(
    engine="C-histbfs",
-   technique="explicit-state breadth-first search over operation histories on the real objects (two variable slots, ~55-operation menu), states merged by a canonical key, invariants evaluated once per state on objects rebuilt from scratch; differential oracle against a freshly constructed variable",
+   technique="explicit-state breadth-first search over operation histories on the real objects (two variable slots, ~70-operation menu, three roots), states merged by a canonical key, invariants evaluated once per state on objects rebuilt from scratch; differential oracle against a freshly constructed variable",
    text="All histories over the edit/solve menu (BC utility methods, coefficient assignment/slice/index, periodic toggle, value assignment/index/in-place add, update_value, copy, arithmetic, sharing a BC object, fresh construction in both styles, apply_BCs, solvePDE, solveExplicitPDE into the same or the other slot) are explored breadth-first to the stated depth on each grid; in every reachable state solvePDE / solveExplicitPDE / apply_BCs on each live variable must equal the same call on a freshly constructed variable with the same visible state, no supported operation may raise, and variables that do not deliberately share a BC object must be independent. States, transitions, depth completed and whether the frontier closed are reported.",
    note="State merging ignores interior values (no library code branches on them; fields are generic so staleness is visible); successor generation uses deepcopy but every state's invariants are evaluated on a world replayed from scratch; bound = depth and the finite edit alphabet; one recorded finding (shared BC object: dirty bits cleared by another variable) is matched by a history predicate and must satisfy its residual oracle.",
    ref="DESIGN.md 4/C09"),
@@ -60,7 +60,7 @@ CHECKS = {
 
  "C15": dict(
    engine="C-histbfs",
-   technique="exhaustive enumeration of all call sequences up to length 2 (thorough 3) over the full menu of 34 public builders/solvers on the real objects, with frozen inputs, byte snapshots and differential comparison against a fresh world",
+   technique="exhaustive enumeration of all call sequences up to length 2 (thorough 3) over the full menu of 34 public builders/solvers on the real objects, of all (builder, in-place input edit, builder) sequences and of all (builder on another mesh, builder) sequences, with frozen inputs, byte snapshots and differential comparison against a fresh world",
    text="Every ordered sequence of public builder/solver calls up to the length bound is executed on 9 classes x 2 shapes; at every call the byte snapshot of everything reachable from the inputs (mesh, coefficient variables, BCs incl. dirty bits, cached BC terms, prebuilt terms) must be unchanged, the inputs are made read-only so an in-place write raises, the result must be bit-identical to the same call in a fresh world (catches hidden module-level/cached state for all ordered pairs) and must not alias mesh storage; reused terms across solves equal rebuilt terms. States (sequence prefixes) and transitions (calls) are reported.",
    note="Sequences longer than the bound and argument values outside the fixed generic inputs are not explored; sharing a BC object with a constructor argument is by design and not reported.",
    ref="DESIGN.md 4/C15"),
@@ -81,13 +81,13 @@ CHECKS = {
 
  "C04": dict(
    engine="B-cfgsolve",
-   technique="exhaustive enumeration of programs: all ordered term lists up to length 3 (thorough 4) over a 12-kind term alphabet x class x shape x BC set-up, executed with a spy solver against an independently accumulated dense system",
+   technique="exhaustive enumeration of programs: all ordered term lists up to length 3 (thorough 4) over a 13-kind term alphabet; all length-3 sequences of solves on one variable over a 7-system alphabet x class x shape x BC set-up, executed with a spy solver against an independently accumulated dense system",
    text="Every ordered term list within the length bound (matrix, vector, (matrix, vector) pairs, negated, scaled, plain tuple, SignedTuple and its negation; one mandatory well-conditioned base term at a varying position) is solved on 9 classes x 2 shapes x 3 BC set-ups; solvePDE must return its argument, the spy solver must have received exactly the hand-assembled system and its answer must be what the variable holds, residuals of interior and boundary rows must vanish, the result must equal solveMatrixPDE of the hand-assembled system and be independent of the term order; ghost rows of every builder are exactly zero on every grid instance; the solution is the superposition of unit-source, unit-boundary-datum and unit-previous-value solutions. Exhaustive over programs within the bound.",
    note="Programs whose assembled matrix is ill-conditioned (cond*eps > 1e-6) are reported as preconditions_failed; periodic set-ups use equal end cells (unequal ends are C03's recorded finding).",
    ref="DESIGN.md 4/C04"),
  "C12": dict(
    engine="B-cfgsolve",
-   technique="configuration lattice (class x shape x spacing x BC set-up x term subset x alpha kind) enumerated completely, each with the full 14-value dt alphabet and all 8 implicit/explicit step sequences of length 3",
+   technique="configuration lattice (class x shape x spacing x BC set-up x term subset x alpha kind) enumerated completely, each with the full 14-value dt alphabet, all 8 implicit/explicit step sequences of length 3 and all three-step time loops over a 7-action alphabet of coefficient-object histories",
    text="For every configuration the backward-Euler residual form is evaluated in every interior cell for every dt of the 12-decade alphabet, the steady solution must be a fixed point for every dt and alpha (scalar and per cell), the limits dt=2^40 / 2^-40 must return the steady solution / the old field within first-order bounds, solveExplicitPDE must equal old+dt*RHS with re-imposed boundary values and leave its clean input byte-identical, explicit and implicit steps must differ by O(dt^2) (ratio >= 3.5 per halving in the asymptotic range) and every mixed sequence of three steps must satisfy the per-step oracles. Exhaustive over the lattice and the dt alphabet.",
    note="Continuous dt range represented by a finite alphabet (10^-6..10^5, 2^+-40); tolerances 64*eps*cond of the row-equilibrated system; periodic set-ups use equal end cells.",
    ref="DESIGN.md 4/C12"),
@@ -120,6 +120,41 @@ CHECKS = {
 }
 NOT_YET = {}
 
+GRIDS = (" Grid instances of the shared enumeration (fvmc/universe.py grid_specs): cells per axis 1..3 in every combination, spacing templates uniform/irregular "
+         "(thorough: +geometric), radial origin 0/offset, plus every shape once through the (N, L) constructor form, shapes with 4-6 cells, the same grids in "
+         "length units of 2^-30 and 2^40 (exact rescaling) and nearly equispaced faces (1e-6 relative deviations); grids with 40/133, 17x13, 7x6x5 cells are "
+         "evaluated on generic fields and all global sign patterns instead of the full basis.")
+# what the fourth round of extensions added to each enumeration (appended to the level text)
+ADDED = {
+ "C01": GRIDS,
+ "C05": GRIDS + " Upwind identities also for velocities and explicit upwind-direction fields of magnitude 2^-40, 2^-70, 2^50.",
+ "C06": GRIDS + " One long-lived velocity object is re-assembled after in-place edits (sign flip, 2^-40 / 2^45 scaling, zero).",
+ "C11": GRIDS + " Means on values of magnitude 2^-40 / 2^60 and constants 1e-9..2.5e14; upwindMean for velocities down to the smallest subnormal.",
+ "C04": GRIDS.replace("Grid instances", "Ghost-row part: grid instances") + " All sequences of three solves on ONE variable (built-in solver) over 7 systems that differ by a few ppm, "
+        "by a factor, in the sources only, in sparsity, or are expressed in units with coefficients ~1e-9; the caller's term list must be left alone; +SignedTuple; "
+        "solveMatrixPDE with an external solver.",
+ "C03": " Also: the same problems with lengths x 2^-30 / 2^40 and values x 2^-40 / 2^30 (a and c rescaled with them), and integer/bool-typed initial arrays.",
+ "C09": " Menu also contains re-assignments that differ by a few ppm / 1e-9 and augmented assignment of coefficients; roots include an integer-typed initial array "
+        "on a periodic domain (dtype is part of the state key); every value edit has a postcondition (the interior values read back are the ones assigned); complete "
+        "tables 'initial-value form x BC style x value edit' and 'boundary-face form x coefficient edit' on all nine classes.",
+ "C10": " Also: nearly equispaced template, every grid in length units 2^-30 / 2^-60 / 2^40, integer-typed face arrays and numpy-integer cell counts, (N,L) lengths 2^-30 and 3e9, "
+        "grids with up to 133 cells per axis.",
+ "C12": " Also: all three-step time loops on one solution variable in which the coefficient object alpha (scalar / ndarray / CellVariable) is kept, edited in place by 50% or "
+        "by ppm, refreshed with apply_BCs, assigned, advanced by its own solvePDE or replaced between the steps (7x7 histories) x 4 dt patterns x {term list rebuilt, one list "
+        "reused}; dt and alpha given as int / numpy integer / float32 / bool.",
+ "C13": " Also: the gradient ratio given in every numeric container (int64/int32/int8/float32 arrays of rank 0-3, Python and NumPy scalars, strided / reversed / transposed / "
+        "Fortran-ordered / read-only views); the argument must not be written to.",
+ "C14": " Also: operands whose values coincide exactly with the scalar operands, zeros of both signs, the smallest subnormal, integer-typed ndarrays; results must be numpy's "
+        "including the sign of zeros; FaceVariable constructor forms (scalar, list, tuple, ndarray, integer).",
+ "C15": " Also: for every builder and 11 documented in-place edits of its inputs (velocity sign flip / scaling / zero / assignment through the label setters, D scaling, "
+        "value edits + apply_BCs, BC edits incl. ppm): call, edit, call again == edit, call, bit for bit, and the inputs are left identical; every builder on a second mesh with "
+        "the same cell counts (other spacing, other length unit, other constructor form, other grid class) used first in the same session; the term list container is unchanged.",
+ "C16": " Also: 21 kinds of non-array objects (Python and NumPy scalars, memoryview, range, ...) as each single boundary coefficient and as all three; such a face must never end "
+        "up in a solved problem.",
+ "C17": " Also six extreme unit systems (lengths down to 2^-40, values down to 2^-70, everything x 2^50) for the term sets without the TVD correction.",
+ "C02": " Graded ladders are not end-symmetric (first cell wider than the last one, interior ratios vary).",
+}
+
 def main():
     props = [json.loads(l)["id"] for l in open(os.path.join(HERE, "properties.jsonl"))]
     checks = []
@@ -134,7 +169,7 @@ def main():
             "evidence_file": f"/verif/evidence/{pid}.json",
             "replay_cmd_template": f"{PY} -m fvmc.replay {{path}}",
             "engine": c["engine"],
-            "level_claimed": {"category": "model_checking", "text": c["text"], "design_ref": c["ref"]},
+            "level_claimed": {"category": "model_checking", "text": c["text"] + ADDED.get(pid, ""), "design_ref": c["ref"]},
             "level_note": c["note"],
             "technique": c["technique"],
         })
